@@ -35,9 +35,18 @@ def _eq(a, b):
         return False
     for k in a:
         x, y = a[k], b[k]
-        if type(x) is not type(y) or x != y:
+        # "an equal dictionary": Python equality (an integer-valued scalar may come back as int or float; a string never equals a number, a list never a scalar)
+        if isinstance(x, bool) != isinstance(y, bool) or x != y:
             return False
     return True
+
+
+def _num_ok(got, val):
+    """got is a numeric scalar worth the decimal string val (exactly, or as its nearest double)"""
+    from fractions import Fraction
+    if isinstance(got, bool) or not isinstance(got, (int, float, np.integer, np.floating)):
+        return False
+    return got == float(val) or Fraction(got) == Fraction(val)
 
 
 def _roundtrip(text, d, tag):
@@ -57,7 +66,7 @@ def _roundtrip(text, d, tag):
     except Exception as e:
         return [("write:exc:%s" % tag, "writing/re-parsing %r raised %s: %s" % (text, type(e).__name__, e))], m1
     if not _eq(dict(m1), dict(m2)):
-        diff = {k: (m1.get(k), m2.get(k)) for k in set(m1) | set(m2) if m1.get(k) != m2.get(k) or type(m1.get(k)) is not type(m2.get(k))}
+        diff = {k: (m1.get(k), m2.get(k)) for k in set(m1) | set(m2) if m1.get(k) != m2.get(k)}
         v.append(("roundtrip:%s" % tag, "file %r: parse -> %r, after write and parse -> differs on %r (written: %r)"
                   % (text, {k: m1[k] for k in diff}, diff, open(f2).read())))
     return v, m1
@@ -102,7 +111,7 @@ def grammar_check(case):
                 got = m1.get("k")
                 if cls == "string" and got != val:
                     key = "parse:string"
-                elif cls == "scalar" and not (isinstance(got, float) and got == float(val)):
+                elif cls == "scalar" and not _num_ok(got, val):
                     key = "parse:scalar"
                 elif cls == "intlist" and got != [float(x) for x in val.split(",")]:
                     key = "parse:intlist"
@@ -135,7 +144,7 @@ def scalar_check(case):
     d = synth.proc_scratch()
     small = float(val) < 1e-4
     vv, m1 = _roundtrip("imSampRate=%s\nfileTimeSecs=%s\n" % (val, val), d, "scalar:below-1e-4" if small else "scalar")
-    if not vv and m1["imSampRate"] != float(val):
+    if not vv and not _num_ok(m1["imSampRate"], val):
         vv.append(("parse:scalar", "%r parsed as %r" % (val, m1["imSampRate"])))
     return Res(vv, o=(small,), tr=3)
 
@@ -225,7 +234,7 @@ def derived_check(case):
             with open(fmeta, "w") as f:
                 f.write(synth.meta_text(items))
             try:
-                sr = spikeglx.Reader(fmeta)
+                sr = spikeglx.Reader(fmeta, sort=False)          # on-disk order: the statement does not say in which order a sorted reader lists the factors
                 ntr += 1
                 ref = np.array(synth.ref_s2v(kind, stream, k, nsync, gains=gains, vrange=vr, maxint=mi))
                 s2v = np.asarray(sr.sample2volts, dtype=float)
